@@ -240,6 +240,17 @@ def run_container(ctx, case):
         if dd:
             ctx.fail(f"container/content-changed-{specs.diff_class(dd[0])}", f"file: {dd[0]} reads {str(dd[1])[:60]!r} after scrambling "
                                                                              f"reserved words / comment tails, {str(dd[2])[:60]!r} before")
+        if decode_blocks:
+            # "the content returned for a file" includes the verdict of the library's own comparison: the two files have equal content
+            from basictdf import Tdf
+
+            def same():
+                with Tdf(os.path.join(d, "orig.tdf")) as a, Tdf(os.path.join(d, "scr.tdf")) as b:
+                    return bool(a == b), bool(b == a)
+            ok, eq = ctx.must(same, "container/compare", "comparing a file with its copy that differs only in don't-care bytes")
+            if ok and eq != (True, True):
+                ctx.fail("container/files-compare-unequal", f"two files that differ only in don't-care bytes (reserved words, pad words, comment tails; filler {kind}) "
+                                                            f"compare unequal (a==b: {eq[0]}, b==a: {eq[1]})")
     finally:
         env.rmdir(d)
     ctx.case(case, bool(changed), labels=[f"source={case['source']}", f"fill={kind}", f"N={case['N']}"] + [f"changed:header/{c}" for c in changed])
@@ -324,6 +335,88 @@ def _sweep_block_specs(long_labels=False):
     return out
 
 
+def enum_aligned(tier):
+    """where the terminator of a text field falls relative to the read-ahead buffer of the file object is a matter of byte offsets: sweep
+    them ALL. An opaque block of p bytes in front of a labelled block, p = 0 .. 8191 (every phase of 4 KiB and 8 KiB buffers; thorough:
+    0 .. 65535), read through the file interface with 0xff behind every terminator; and entry comments of every length in every slot of
+    a 32-slot table. One case = 256 offsets."""
+    from .c07 import LABELLED
+
+    top = 8192 if tier == "quick" else 65536
+    for t in sorted(LABELLED):
+        for lo in range(0, top, 256):
+            yield {"t": t, "lo": lo, "hi": lo + 256}
+    for slot in range(32):
+        yield {"t": "entry-comment", "slot": slot}
+
+
+def run_aligned(ctx, case):
+    from basictdf import Tdf
+    from basictdf.tdfBlock import BlockType
+
+    from .c07 import LABELLED, labelled_spec
+
+    t = case["t"]
+    d = env.fresh_dir()
+    n_read = 0
+    try:
+        path = os.path.join(d, "a.tdf")
+        if t == "entry-comment":
+            slot = case["slot"]
+            N = 32
+            codes = [c for c in range(1, 17)] + [c for c in range(1, 17)]
+            for L in range(0, 256):
+                text = "c" * L
+                blocks = [{"type": 13, "format": 1, "payload": b"", "comment": "", "cdate": 1, "mdate": 2, "adate": 3} for _ in range(slot)]
+                blocks.append({"type": 14, "format": 1, "payload": b"", "comment": text, "cdate": 1, "mdate": 2, "adate": 3})
+                image, spans = reftdf.build_image(N, blocks, with_spans=True)
+                scr, _ = scramble(image, spans, "ff", 1)
+                with open(path, "wb") as f:
+                    f.write(scr)
+
+                def read():
+                    with Tdf(path) as tf:
+                        return tf.entries[slot].comment
+                ok, got = ctx.must(read, "aligned/read-entry", f"reading the table of a file whose entry {slot} has a comment of {L} chars and 0xff behind every terminator")
+                if not ok:
+                    return
+                n_read += 1
+                if got != text:
+                    ctx.fail("aligned/entry-comment-changed", f"entry {slot}: comment of {L} chars (terminator at file offset {64 + 288 * slot + 32 + L}) reads as {len(got)} chars "
+                                                              f"with 0xff behind the terminator")
+            ctx.case(case, True, labels=["aligned:entry-comment"])
+            return
+        w = 32 if t == "optical" else 256
+        spec = labelled_spec(t, 3)
+        key = "name" if t == "optical" else "label"
+        for k, it in enumerate(spec[LABELLED[t]]):
+            it[key] = "T" * (1 + 7 * k)
+        want = specs.canon(spec)
+        payload = reftdf.encode(spec)
+        for p in range(case["lo"], case["hi"]):
+            blocks = [{"type": 13, "format": 1, "payload": b"\x00" * p, "comment": "pad", "cdate": 1, "mdate": 2, "adate": 3},
+                      {"type": reftdf.TYPE_CODE[t], "format": spec["format"], "payload": payload, "comment": "x", "cdate": 1, "mdate": 2, "adate": 3}]
+            image, spans = reftdf.build_image(3, blocks, with_spans=True)
+            scr, _ = scramble(image, spans, "ff", 1)
+            with open(path, "wb") as f:
+                f.write(scr)
+
+            def read():
+                with Tdf(path) as tf:
+                    return specs.extract(tf.get_block(BlockType(reftdf.TYPE_CODE[t])))
+            ok, got = ctx.must(read, f"aligned/read-{t}", f"reading a {t} block stored at file offset {64 + 288 * 3 + p} with 0xff behind every terminator")
+            if not ok:
+                return
+            n_read += 1
+            dd = specs.first_diff(got, want)
+            if dd:
+                ctx.fail(f"aligned/{t}/content-changed", f"{t} block stored at file offset {64 + 288 * 3 + p}: {dd[0]} reads {str(dd[1])[:40]!r} with 0xff behind the terminators, "
+                                                         f"the bytes say {str(dd[2])[:40]!r}")
+    finally:
+        env.rmdir(d)
+    ctx.case(case, True, labels=[f"aligned:{t}"])
+
+
 ALL_FILLS = ["random", "ff", "text", "adversarial", "small-int", "float-special", "negative-int", "wide", "cstring", "partial:small-int", "partial:random", "partial:ff",
              "partial:wide", "partial:cstring"]
 
@@ -403,6 +496,10 @@ SUBS = [
         rule="one don't-care word at a time swept through a whole range: the table entry's pad word through all of 0..65535 plus 2^k-1, 2^k, 2^k+1 and other "
              "numbers with a meaning elsewhere (code pages), with non-ASCII text in the entry; each reserved word of each block type's header through 0..4095 (quick) / "
              "0..65535 (thorough) plus the specials, with non-ASCII labels; finite, enumerated (one case = 512 values)"),
+    Sub("terminators-at-buffer-boundaries", run_aligned, kind="enum", enumerate=enum_aligned, shards=(8, 16),
+        rule="files read through the file interface (buffered file object) with 0xff behind every terminator: a labelled block of each of 6 types behind an opaque block of "
+             "p bytes, for EVERY p in 0..8191 (thorough 0..65535), and entry comments of every length 0..255 in every slot of a 32-slot table; finite, enumerated "
+             "(one case = 256 offsets)", nontrivial_required=False),
     Sub("filler-matrix", run_blocks, kind="enum", enumerate=enum_fill_matrix, shards=(8, 16),
         rule="nine block types (fixed blocks, two labelled items, non-ASCII text) x 14 filler kinds x 2 (6 for the terminated-text filler) seeds x source {library-written, "
              "reference-written}; finite, enumerated", nontrivial_required=False),
